@@ -161,40 +161,64 @@ class _Sink:
 SINK = _Sink()
 
 
+_IN_NEXT = [0]  # depth of TracingQueue.__next__ (transient, never pickled)
+
+
 class TracingQueue(DefaultQueue):
-    """DefaultQueue that reports every operation to the current listener.
+    """DefaultQueue that reports every *external* operation to the current listener.
 
     Adds no state of its own (pickles exactly like a DefaultQueue with another
-    class name), and always calls the real implementation first.
+    class name), and always calls the real implementation first.  Calls the
+    queue makes to its own methods while inside __next__ (marking a label
+    not-inferrable when its work is staged, retiring a label after its last
+    expansion set) are internal and are not reported.
     """
 
     def add(self, label):
         super().add(label)
-        SINK.emit("q.add", label)
+        if not _IN_NEXT[0]:
+            SINK.emit("q.add", label)
 
     def set_not_inferrable(self, label):
         super().set_not_inferrable(label)
-        SINK.emit("q.noinf", label)
+        if not _IN_NEXT[0]:
+            SINK.emit("q.noinf", label)
 
     def set_verified(self, label):
-        super().set_verified(label)
-        SINK.emit("q.verified", label)
+        _IN_NEXT[0] += 1  # set_verified delegates to set_stop_yielding: report once
+        try:
+            super().set_verified(label)
+        finally:
+            _IN_NEXT[0] -= 1
+        if not _IN_NEXT[0]:
+            SINK.emit("q.verified", label)
 
     def set_stop_yielding(self, label):
         super().set_stop_yielding(label)
-        SINK.emit("q.stop", label)
+        if not _IN_NEXT[0]:
+            SINK.emit("q.stop", label)
 
     def __next__(self):
+        _IN_NEXT[0] += 1
         try:
             wp = super().__next__()
         except StopIteration:
+            _IN_NEXT[0] -= 1
             SINK.emit("q.exhausted")
             raise
+        except BaseException:
+            _IN_NEXT[0] -= 1
+            raise
+        _IN_NEXT[0] -= 1
         SINK.emit("q.next", wp)
         return wp
 
 
 class _RecordingMixin:
+    def link_searcher(self, searcher):
+        super().link_searcher(searcher)
+        SINK.emit("db.link", self, searcher)
+
     def add(self, start, ends, rule):
         SINK.emit("db.add.pre", self, start, ends, rule)
         super().add(start, ends, rule)
